@@ -156,7 +156,8 @@ class Result:
         self.violations.append((what, replay))
 
     def finish(self):
-        rdir = os.path.join(VERIF, "evidence", "replay", self.prop)
+        EVD = os.environ.get("VERIF_EVIDENCE", os.path.join(VERIF, "evidence"))   # overridden only by tools that run the checks against a scratch tree
+        rdir = os.path.join(EVD, "replay", self.prop)
         os.makedirs(rdir, exist_ok=True)
         for f in os.listdir(rdir):
             if f.startswith("violation_"):
@@ -170,14 +171,14 @@ class Result:
                 print("KNOWN-FINDING: property=%s %s [%s; listed, schedule-dependent, not observed in this run]" % (self.prop, fd["what"], dev))
         rc = 0
         for i, (what, replay) in enumerate(self.violations[:20]):
-            path = os.path.join(VERIF, "evidence", "replay", self.prop, "violation_%d.json" % i)
+            path = os.path.join(EVD, "replay", self.prop, "violation_%d.json" % i)
             json.dump({"property": self.prop, "what": what, "replay": replay}, open(path, "w"), indent=1)
             print("VIOLATION property=%s replay=%s  (%s)" % (self.prop, path, what))
             rc = 1
         ev = {"property_id": self.prop, "tier": self.tier, "seed": seed(), "level": self.level,
               "coverage": self.cov, "assumptions": self.assumptions, "wall_s": round(time.time() - self.t0, 1),
               "violations": len(self.violations), "known_findings_seen": self.known, "notes": self.notes}
-        json.dump(ev, open(os.path.join(VERIF, "evidence", self.prop + ".json"), "w"), indent=1)
+        json.dump(ev, open(os.path.join(EVD, self.prop + ".json"), "w"), indent=1)
         print("%s %s: %s  states=%d transitions=%d traces=%d wall=%.1fs" % (
             self.prop, self.tier, "VIOLATED" if rc else "held", self.cov["states"], self.cov["transitions"],
             self.cov["traces_validated_against_impl"], time.time() - self.t0))
